@@ -19,7 +19,8 @@ MANIFEST = {
             'both add paths; after every arrival head, tip set, by-height index of every stored block and forks() are '
             'compared with a reference fork choice that knows only arrival order and heights. Run 0 of every batch '
             'additionally enumerates all 720 parent-choice sequences of 6 blocks (reported, not the deciding step).'
-            ' 30% of the trees are installed in a real ChainManager after every arrival and read back from there; 3% have a side branch starting 100-135 blocks below the tip of a long chain.',
+            ' 30% of the trees are installed in a real ChainManager after every arrival and read back from there; 3% have a side branch starting 100-135 blocks below the tip of a long chain.'
+            " Trees may start 1-4 blocks below a retarget boundary (rival blocks then state different targets); in served trees some blocks are found by the node's own miner (real MinerWatcher handlers: candidate requested at one moment, winning hash delivered after other arrivals).",
     'note': 'Trusted: reference fork choice (refmodel/rules.py RefChain.head/tips/ancestors); blocks are assembled by the '
             'repo; scrypt stand-in on the validated path; hollow base or real genesis as root.',
 }
